@@ -281,6 +281,35 @@ def run(prop, tier):
                              "history": [e.line() for e in hh], "probe": Ev(0, some).line()},
                             {"kind": "state-precondition", "model": model, "state": sname, "ooc": ooc})
                 ctx.part("precond-" + model, probes=len(tasks), representative=some, requirement=NEED[model])
+                if model == "nosv":
+                    # the same requirement for the events that carry arguments (task types, tasks): refused while the thread is
+                    # out of the CPU, accepted otherwise (the same history without the context switch)
+                    from lib.emusrv import u32
+                    setup = [X, Ev(0, "VYc", b"", 1, u32(7) + b"ty\0"), Ev(0, "VTc", u32(1, 7))]
+                    probes = [("VTx", Ev(0, "VTx", u32(1, 0))), ("VTc", Ev(0, "VTc", u32(2, 7))), ("VYc", Ev(0, "VYc", b"", 1, u32(8) + b"tz\0")),
+                              ("VTx;VTp", None), ("VTx;VTe", None)]
+                    for ooc in (0, 1):
+                        hh = setup + ([Ev(0, "KCO")] if ooc else [])
+                        hres, pres = pool.local.expand(hh, [p for (_, p) in probes if p is not None])
+                        ctx.add(evaluations=3, transitions=3)
+                        if not hres.get("ok"):
+                            continue
+                        for (nm, p), r in zip([x for x in probes if x[1] is not None], pres):
+                            if r.ok != (not ooc) and not r.crashed:
+                                ctx.violation("model nosv: event %s %s: expected %s, emulator %s (%s)" % (
+                                    nm, "while the thread is out of CPU" if ooc else "in the CPU", "refused" if ooc else "accepted", r.status, r.msg),
+                                    {"engine": "E3", "flags": pool.flags, "spec": SPEC, "require": req, "history": [e.line() for e in hh], "probe": p.line()},
+                                    {"kind": "state-precondition", "model": model, "state": "running", "ooc": ooc, "event": nm})
+                    # a running task: pause / end while out of the CPU
+                    run = setup + [Ev(0, "VTx", u32(1, 0)), Ev(0, "KCO")]
+                    hres, pres = pool.local.expand(run, [Ev(0, "VTp", u32(1, 0)), Ev(0, "VTe", u32(1, 0))])
+                    ctx.add(evaluations=2, transitions=2)
+                    if hres.get("ok"):
+                        for nm, r in zip(("VTp", "VTe"), pres):
+                            if r.ok:
+                                ctx.violation("model nosv: event %s while the thread is out of CPU: expected refused, emulator ok" % nm,
+                                              {"engine": "E3", "flags": pool.flags, "spec": SPEC, "require": req, "history": [e.line() for e in run], "probe": nm},
+                                              {"kind": "state-precondition", "model": model, "state": "running", "ooc": 1, "event": nm})
 
                 # ---- lint: a trace ending with an open region must be refused with -l
                 tasks, meta = [], []
